@@ -85,8 +85,32 @@ Definition wf_C17 (close run pgc_run pgc_close mp_close igc idx_close : list sev
 (* ---- C05: critical-section structure of the index, the double-buffered flush, the store's commit order ---- *)
 Definition whole_body_locked (lk : string) (l : list sev) : bool :=
   subseq [SLock lk; SDeferUnlock lk] l && negb (occurs (SUnlock lk) l) && guarded lk any_assign l.
-Definition wf_C05 (iput iupdate iremove iget iflush pflush commit : list sev) : bool :=
-  whole_body_locked "idx.bucketLk" iput && subseq [SLock "idx.bucketLk"; SCall "idx.getRecordsFromBucket"; SAssign "idx.nextPool"] iput
+(* the key lock of Store.Put / Store.Remove: every index lookup, primary append, index mutation and freelist entry of the call happens
+   while the key's lock is held; the lock is released before the call waits for a flush (flushTick is never called under it) *)
+Definition is_call_of (fs : list string) (e : sev) : bool :=
+  match e with SCall f => existsb (String.eqb f) fs | _ => false end.
+Fixpoint outside_go (lk : string) (sel : sev -> bool) (held : bool) (l : list sev) : bool :=
+  match l with
+  | [] => true
+  | e :: l' =>
+      match e with
+      | SLock x => outside_go lk sel (if String.eqb x lk then true else held) l'
+      | SUnlock x => outside_go lk sel (if String.eqb x lk then false else held) l'
+      | _ => (negb (sel e) || negb held) && outside_go lk sel held l'
+      end
+  end.
+Definition writer_calls : list string :=
+  ["s.index.Get"; "s.index.Primary.Get"; "s.index.Primary.Put"; "s.index.Put"; "s.index.Update"; "s.index.UpdateIfBlock";
+   "s.index.Remove"; "s.index.RemoveIfBlock"; "s.freelist.Put"].
+Definition key_locked (l : list sev) : bool :=
+  guarded "lk" (is_call_of writer_calls) l && outside_go "lk" (is_call_of ["s.flushTick"]) false l
+  && negb (occurs (SDeferUnlock "lk") l).
+Definition wf_C05 (iput iupdate iremove iget iflush pflush commit sput sremove : list sev) : bool :=
+  key_locked sput
+  && subseq [SLock "lk"; SCall "s.index.Get"; SCall "s.index.Primary.Put"; SCall "s.index.UpdateIfBlock"; SCall "s.freelist.Put"; SUnlock "lk"] sput
+  && key_locked sremove
+  && subseq [SLock "lk"; SCall "s.index.Get"; SCall "s.index.RemoveIfBlock"; SCall "s.freelist.Put"; SUnlock "lk"] sremove
+  && whole_body_locked "idx.bucketLk" iput && subseq [SLock "idx.bucketLk"; SCall "idx.getRecordsFromBucket"; SAssign "idx.nextPool"] iput
   && whole_body_locked "idx.bucketLk" iupdate && subseq [SLock "idx.bucketLk"; SCall "idx.getRecordsFromBucket"; SCall "records.GetRecord"; SAssign "idx.nextPool"] iupdate
   && whole_body_locked "idx.bucketLk" iremove && subseq [SLock "idx.bucketLk"; SCall "idx.getRecordsFromBucket"; SCall "records.GetRecord"; SAssign "idx.nextPool"] iremove
   && subseq [SRLock "idx.bucketLk"; SCall "idx.readBucketInfo"; SRUnlock "idx.bucketLk"; SCall "idx.readDiskBucket"] iget
